@@ -59,6 +59,7 @@ fn run_case<G: AffineRepr>(env: &Env<G>, c: &Case) -> CaseOut {
         let (p2, faults) = match dev {
             crate::checks::c02::Dev::Row { k, d, .. } => (prog.with_row_shift(*k, d.clone()), vec![]),
             crate::checks::c02::Dev::Witness(f) => (prog.clone(), vec![f.clone()]),
+            _ => continue,
         };
         let po = prove::<G>(env, &p2, &faults, &env.bp, c.seed ^ 3 ^ ((i as u64) << 9));
         if let Ok(p) = &po.proof {
